@@ -58,7 +58,8 @@ def WF : Op → Prop
   | .copy _ _ _ dk => dk.length ≤ Front.KeySizeLimit
   | _ => True
 
-theorem ensure_spec (cfg : Cfg) (m : Mem) (b : Bytes) (h : Plain m) :
+theorem ensure_spec (cfg : Cfg) (m : Mem) (b : Bytes) (h : Plain m)
+    (hv : cfg.autoBucket = true → validateBucketName b = true) :
     let r := Front.ensureBucket cfg m b
     let s' := if cfg.autoBucket && !(SMap.find (abs m) b).isSome then SMap.insert (abs m) b [] else abs m
     Plain r.1 ∧
@@ -74,7 +75,7 @@ theorem ensure_spec (cfg : Cfg) (m : Mem) (b : Bytes) (h : Plain m) :
     · obtain ⟨p1, p2, p3⟩ := createBucket_refines m b h
       simp only [Mem.createBucket, hb, Option.isSome_none, Bool.false_eq_true, if_false] at p1 p2 p3
       simp only [Front.ensureBucket, Mem.bucketExists, abs_find, hb, Option.isSome_none, Bool.false_eq_true, if_false, ha, if_true,
-        Mem.createBucket, Option.map_none, Bool.not_false, Bool.and_true]
+        Mem.createBucket, Option.map_none, Bool.not_false, Bool.and_true, hv ha, Bool.not_true]
       refine ⟨p1, Or.inl ⟨by triv, ?_, ?_⟩⟩
       · rw [p2]; simp [step, abs_find, hb]
       · simp [SMap.find_insert_self]
@@ -208,7 +209,8 @@ theorem spec_absent (s : Store) (op : Op) (b : Bytes) (hb : bucketOf op = some b
     handler answers as the reference behaviour of the HTTP layer says — with auto-bucket an absent
     bucket is created first, then the reference model's step — the new store abstracts to the
     reference store and is again never-versioned. -/
-theorem front_step_refines (md5 : Bytes → Bytes) (cfg : Cfg) (md : Meta) (m : Mem) (op : Op) (h : Plain m) (hwf : WF op) :
+theorem front_step_refines (md5 : Bytes → Bytes) (cfg : Cfg) (md : Meta) (m : Mem) (op : Op) (h : Plain m) (hwf : WF op)
+    (hab : cfg.autoBucket = true → ∀ b, bucketOf op = some b → validateBucketName b = true) :
     Plain (frontStep md5 cfg md m op).1 ∧
     abs (frontStep md5 cfg md m op).1 = (specFront cfg.autoBucket (abs m) op).1 ∧
     outAns (frontStep md5 cfg md m op).2 = (specFront cfg.autoBucket (abs m) op).2 := by
@@ -234,7 +236,7 @@ theorem front_step_refines (md5 : Bytes → Bytes) (cfg : Cfg) (md : Meta) (m : 
     | copy sb sk db dk => simp [bucketOf] at hbo
   | some b =>
     obtain ⟨f, hf⟩ := front_unfold md5 cfg md op b hbo
-    obtain ⟨hp, hcase⟩ := ensure_spec cfg m b h
+    obtain ⟨hp, hcase⟩ := ensure_spec cfg m b h (fun ha => hab ha b hbo)
     simp only [specFront, hbo]
     rw [hf m]
     unfold Front.withBucket
@@ -263,7 +265,8 @@ def frontRun (md5 : Bytes → Bytes) (cfg : Cfg) (md : Meta) (m : Mem) (ops : Li
 def specFrontRun (auto : Bool) (s : Store) (ops : List Op) : Store × List Ans :=
   ops.foldl (fun (acc : Store × List Ans) op => let r := specFront auto acc.1 op; (r.1, acc.2 ++ [r.2])) (s, [])
 
-theorem front_run_aux (md5 : Bytes → Bytes) (cfg : Cfg) (md : Meta) (ops : List Op) (hwf : ∀ op ∈ ops, WF op) :
+theorem front_run_aux (md5 : Bytes → Bytes) (cfg : Cfg) (md : Meta) (ops : List Op) (hwf : ∀ op ∈ ops, WF op)
+    (hab : cfg.autoBucket = true → ∀ op ∈ ops, ∀ b, bucketOf op = some b → validateBucketName b = true) :
     ∀ (m : Mem) (acc : List Ans), Plain m →
     let r := ops.foldl (fun (a : Mem × List Ans) op => let r := frontStep md5 cfg md a.1 op; (r.1, a.2 ++ [outAns r.2])) (m, acc)
     let q := ops.foldl (fun (a : Store × List Ans) op => let r := specFront cfg.autoBucket a.1 op; (r.1, a.2 ++ [r.2])) (abs m, acc)
@@ -273,8 +276,9 @@ theorem front_run_aux (md5 : Bytes → Bytes) (cfg : Cfg) (md : Meta) (ops : Lis
   | cons op ops ih =>
     intro m acc h
     obtain ⟨e1, e2, e3⟩ := front_step_refines md5 cfg md m op h (hwf op (List.mem_cons_self ..))
+      (fun ha b hb => hab ha op (List.mem_cons_self ..) b hb)
     simp only [List.foldl_cons]
-    have := ih (fun o ho => hwf o (List.mem_cons_of_mem _ ho)) (frontStep md5 cfg md m op).1 (acc ++ [outAns (frontStep md5 cfg md m op).2]) e1
+    have := ih (fun o ho => hwf o (List.mem_cons_of_mem _ ho)) (fun ha o ho => hab ha o (List.mem_cons_of_mem _ ho)) (frontStep md5 cfg md m op).1 (acc ++ [outAns (frontStep md5 cfg md m op).2]) e1
     rw [e2] at this
     simp only [e3] at this ⊢
     exact this
@@ -284,10 +288,11 @@ theorem front_run_aux (md5 : Bytes → Bytes) (cfg : Cfg) (md : Meta) (ops : Lis
     response for response as the reference behaviour answers it, from every never-versioned store
     (the empty one in particular). -/
 theorem front_run_refines (md5 : Bytes → Bytes) (cfg : Cfg) (md : Meta) (m : Mem) (ops : List Op) (h : Plain m)
-    (hwf : ∀ op ∈ ops, WF op) :
+    (hwf : ∀ op ∈ ops, WF op)
+    (hab : cfg.autoBucket = true → ∀ op ∈ ops, ∀ b, bucketOf op = some b → validateBucketName b = true) :
     Plain (frontRun md5 cfg md m ops).1 ∧ abs (frontRun md5 cfg md m ops).1 = (specFrontRun cfg.autoBucket (abs m) ops).1 ∧
     (frontRun md5 cfg md m ops).2 = (specFrontRun cfg.autoBucket (abs m) ops).2 :=
-  front_run_aux md5 cfg md ops hwf m [] h
+  front_run_aux md5 cfg md ops hwf hab m [] h
 
 /-! Non-vacuity: with auto-bucket, a put into an absent bucket creates it; without, it is refused. -/
 example : (frontRun id { autoBucket := true } [] Mem.empty [.put [98, 107, 116] [107] [1], .get [98, 107, 116] [107], .listBuckets]).2
